@@ -400,7 +400,15 @@ func writeEvidence(verif, prop, tier string, seed int, spec *PropSpec, recs []ob
 	for _, a := range spec.Undecided {
 		asm = append(asm, "NOT decided by this check: "+a)
 	}
-	samples := recs
+	// the sample keeps every obligation that was not discharged and the slowest discharged ones
+	samples := append([]oblRecord{}, recs...)
+	sort.SliceStable(samples, func(i, j int) bool {
+		bi, bj := samples[i].Verdict != "unsat" && samples[i].Kind != "cover", samples[j].Verdict != "unsat" && samples[j].Kind != "cover"
+		if bi != bj {
+			return bi
+		}
+		return samples[i].Ms > samples[j].Ms
+	})
 	if len(samples) > 400 {
 		samples = samples[:400]
 	}
